@@ -154,3 +154,18 @@ impl Keep {
         self.0.lock().unwrap().push(Box::new(x));
     }
 }
+
+struct InjectedPanic;
+/// Fault injection: drop `x` while the current thread unwinds from a panic raised right here
+/// (caught again once the destructors have run).
+pub fn drop_while_unwinding<T>(x: T) {
+    let r = std::panic::catch_unwind(std::panic::AssertUnwindSafe(move || {
+        let _x = x;
+        std::panic::resume_unwind(Box::new(InjectedPanic));
+    }));
+    match r {
+        Err(e) if e.is::<InjectedPanic>() => {}
+        Err(e) => std::panic::resume_unwind(e),
+        Ok(()) => unreachable!(),
+    }
+}
